@@ -351,3 +351,7 @@ func SetFile(path, content string, readable bool) {
 		panic(err)
 	}
 }
+
+// WatchWrites: like Watch, but only writes to the object must happen under a lock (objects that
+// are read without locks by design, such as the shared configuration).
+func WatchWrites(x interface{}) {}
